@@ -74,6 +74,7 @@ type domain struct {
 	elemFault float64
 	sleepy    float64
 	gate      float64
+	rdv       float64 // C03: rendezvous of everything that is runnable from the start
 	goexit    float64 // fraction of faults that kill the goroutine with runtime.Goexit
 }
 
@@ -88,6 +89,7 @@ func domainFor(prop string) domain {
 	case "C03":
 		d.pFault, d.perUnit, d.elemFault, d.goexit = 0.3, 0.2, 0.15, 0.6
 		d.sleepy = 0.8 // overlapping executions are what the limit is about
+		d.rdv = 0.5
 	case "C15":
 	case "C01":
 		d.pFault, d.perUnit, d.panics = 0.4, 0.2, 0.3
@@ -174,6 +176,10 @@ func genScenario(t *rapid.T, s *rt.Spec, d domain) *rt.Scenario {
 	for _, mp := range s.Maps {
 		collUnit[mp.Coll] = mp.Unit
 	}
+	collOf := map[int]int{} // unit -> collection
+	for c, u := range collUnit {
+		collOf[u] = c
+	}
 	for c := range scn.Colls {
 		var n int
 		switch uniform(t, "lenclass", 8) {
@@ -220,7 +226,42 @@ func genScenario(t *rapid.T, s *rt.Spec, d domain) *rt.Scenario {
 		}
 	}
 	scn.G = d.g[uniform(t, "g", len(d.g))]
-	if prob(t, "cancel", d.cancel) {
+	if d.rdv > 0 && !faulty && s.Kind == "parallel" && prob(t, "rdv", d.rdv) {
+		// small collections (so that everything fits under the limit) and,
+		// often, empty ones whose End function is then runnable from the start
+		hasEnd := map[int]bool{}
+		for _, sl := range s.Slices {
+			hasEnd[sl.Coll] = sl.End != nil
+		}
+		for _, mp := range s.Maps {
+			hasEnd[mp.Coll] = mp.End != nil
+		}
+		for c := range scn.Colls {
+			switch {
+			case hasEnd[c] && prob(t, "rdvempty", 0.5):
+				scn.Colls[c] = []uint64{}
+			case len(scn.Colls[c]) > 2 && prob(t, "rdvshort", 0.6):
+				scn.Colls[c] = scn.Colls[c][:1+uniform(t, "rdvlen", 2)]
+			}
+		}
+		var keep []rt.ElemOutcome
+		for _, eo := range scn.Elems {
+			if c, ok := collOf[eo.Unit]; ok && eo.Elem < len(scn.Colls[c]) {
+				keep = append(keep, eo)
+			}
+		}
+		scn.Elems = keep
+		if units, n := rt.RdvPlan(s, scn); n >= 2 {
+			k := rt.ConcLimit(s, scn)
+			if n < k {
+				k = n
+			}
+			if k >= 2 {
+				scn.Rdv, scn.RdvUnits, scn.G = k, units, 1
+			}
+		}
+	}
+	if scn.Rdv == 0 && prob(t, "cancel", d.cancel) {
 		switch uniform(t, "cancelkind", 4) {
 		case 0:
 			scn.CancelK = rt.CPre
@@ -274,6 +315,10 @@ func executeAs(s *rt.Spec, scn *rt.Scenario, prop, regName string) *execResult {
 		g = 1
 	}
 	base := rt.SchedIDs()
+	var baseAll map[int64]bool
+	if prop == "C03" {
+		baseAll = rt.AllIDs()
+	}
 	res := &execResult{runs: make([]*rt.Run, g), baseG: runtime.NumGoroutine()}
 	var wg sync.WaitGroup
 	for i := 0; i < g; i++ {
@@ -284,6 +329,7 @@ func executeAs(s *rt.Spec, scn *rt.Scenario, prop, regName string) *execResult {
 		env := rt.NewEnv(i, s, sc)
 		env.Race = prop == "C12"
 		env.Census = prop == "C03"
+		env.BaseG = baseAll
 		env.Solo = g == 1
 		run := &rt.Run{Env: env, Mode: prop}
 		res.runs[i] = run
@@ -336,7 +382,7 @@ func executeAs(s *rt.Spec, scn *rt.Scenario, prop, regName string) *execResult {
 	}
 	for _, r := range res.runs {
 		if r.Env.GateInconclusive.Load() {
-			res.inconclusive = "gate scenario timed out while the process was still busy (slow machine)"
+			res.inconclusive = "gate scenario timed out while the process was still busy (slow machine): " + r.Env.InconclusiveWhy
 		}
 	}
 	leak, ok := rt.AwaitNoSched(base, 20*time.Second)
@@ -438,10 +484,10 @@ func evaluate(s *rt.Spec, scn *rt.Scenario, prop string) (mine, other []rt.Findi
 			// code are bounded by the limit only: per simultaneous execution the
 			// scheduler loop, the goroutine that spawns the workers, `limit`
 			// workers, plus one replacement per Goexit (old and new may overlap).
-			maxG, bound := 0, 0
+			maxG, bound, info := 0, 0, ""
 			for _, r := range res.runs {
 				if n := int(r.Env.MaxG.Load()); n > maxG {
-					maxG = n
+					maxG, info = n, r.Env.MaxGInfo
 				}
 				bound += rt.ConcLimit(s, r.Env.Scn) + 2
 				for _, inj := range r.Env.Injected {
@@ -451,7 +497,7 @@ func evaluate(s *rt.Spec, scn *rt.Scenario, prop string) (mine, other []rt.Findi
 				}
 			}
 			if maxG > bound {
-				all = append(all, rt.Finding{Prop: "C03", Msg: fmt.Sprintf("%d goroutines started by the scheduler or by generated code existed while user functions of the directive ran; with %d simultaneous executions the limit allows at most %d: the number of goroutines is not bounded by the limit alone", maxG, len(res.runs), bound)})
+				all = append(all, rt.Finding{Prop: "C03", Msg: fmt.Sprintf("%d goroutines started by the scheduler or by generated code existed while user functions of the directive ran; with %d simultaneous executions the limit allows at most %d: the number of goroutines is not bounded by the limit alone:\n%s", maxG, len(res.runs), bound, info)})
 			}
 		}
 	}
@@ -580,12 +626,24 @@ func TestInner(t *testing.T) {
 					for rep := 0; rep < reps; rep++ {
 						mine, other, res := evaluate(s, scn, prop)
 						if res.inconclusive != "" {
+							if f, err := os.OpenFile(outPath("skips-"+*flagTag+".txt"), os.O_APPEND|os.O_CREATE|os.O_WRONLY, 0o644); err == nil {
+								fmt.Fprintf(f, "%s: %s\n", s.Name, res.inconclusive)
+								f.Close()
+							}
 							rt_.Skip(res.inconclusive)
 						}
 						if logf != nil {
 							ll := map[string]interface{}{"h": scnHash(s, scn), "prog": s.Name, "faults": len(res.runs[0].Env.Injected), "g": scn.G}
 							if scn.GateU > 0 {
 								ll["gate"] = true
+							}
+							if scn.Rdv > 0 {
+								ll["rdv"] = scn.Rdv
+								for c := range scn.Colls {
+									if len(scn.Colls[c]) == 0 {
+										ll["rdvempty"] = true
+									}
+								}
 							}
 							for _, inj := range res.runs[0].Env.Injected {
 								if inj.Goexit {
@@ -654,7 +712,7 @@ func hammerScenario(t *rapid.T, s *rt.Spec, scn *rt.Scenario, prop string) *rt.S
 	if hm.CancelK == rt.CTimer {
 		hm.CancelK, hm.CancelU = rt.CInUnit, 0
 	}
-	hm.G, hm.GateU, hm.GateFor = 1, 0, 0
+	hm.G, hm.GateU, hm.GateFor, hm.Rdv = 1, 0, 0, 0
 	return &hm
 }
 
